@@ -68,6 +68,31 @@ func (r *EngineRunner) execLock(f []string) string {
 			r.fail("C16", "a rejected Open from another process changed the directory")
 		}
 		return out
+	case "openbg":
+		// the (closed) directory opened with the background merge enabled: it must be held like any other
+		// open database - a second Open is rejected - and free again after Close.  The whole probe takes
+		// milliseconds; the background merge looks at the database once per second.
+		if r.db != nil {
+			return "err open"
+		}
+		o := parseOpts(f[2:], r.dir())
+		o.EnableBackgroundMerge = true
+		dbg, err := kv.Open(o)
+		if err != nil {
+			return "err " + EngErr(err)
+		}
+		o2 := parseOpts(f[2:], r.dir())
+		if db2, err2 := kv.Open(o2); err2 == nil {
+			r.fail("C16", "a second Open succeeded while a database with EnableBackgroundMerge was open on the directory")
+			_ = db2.Close()
+		}
+		if out := runChildOpen(r.dir(), f[2:], 0); strings.HasPrefix(out, "ok") {
+			r.fail("C16", "another process opened the directory while a database with EnableBackgroundMerge was open on it")
+		}
+		if err := dbg.Close(); err != nil {
+			return "err close " + EngErr(err)
+		}
+		return "ok"
 	case "openbad":
 		// a garbage data file with the highest id makes the scan fail with a checksum error
 		bad := filepath.Join(r.dir(), "000099999.data")
